@@ -115,7 +115,7 @@ def generate(rng, tier):
             mods = []
             for n in rng.sample(names + ["u", "v"], rng.randint(1, 3)):
                 k = rng.choice(["int", "float", "str", "bool", "date"])
-                form = rng.choice(["scalar", "vector", "callable", "callable_scalar", "callable_col", "callable_col"])
+                form = rng.choice(["scalar", "vector", "callable", "callable_scalar", "callable_col", "callable_col", "generator", "callable_iter"])
                 if nrow == 0 and form in ("scalar", "callable_scalar"):
                     form = "vector"
                 if form == "callable_col":
@@ -271,6 +271,10 @@ def execute(case):
                     cells = cells * nrow
                 elif form == "vector":
                     kw[n] = di.Vector(arr)
+                elif form == "generator":
+                    kw[n] = (x for x in arr.tolist()) if k in ("int", "float", "bool") else iter(list(arr))      # any one-shot iterable of the values
+                elif form == "callable_iter":
+                    kw[n] = (lambda a: (lambda d: map(lambda x: x, list(a))))(arr)
                 elif form == "callable":
                     kw[n] = (lambda a: (lambda d: di.Vector(a)))(arr)
                 else:
